@@ -344,6 +344,9 @@ def rows_by_interp(run, f, cfg, fn):
     except (Unsupported, Diverged, KeyError) as e:
         run.notes.append("C10.R4 prepare_insert_statement outside the interpreter's fragment (%s): decided by the shape of its rows loop" % e)
         return False
+    from .. import scope
+    scope.check_bound(run, "C10.R4", "row-data:scope", f, ["crate::backend::query_builder::QueryBuilder::prepare_insert_statement"], 3, cfg,
+                      "prepare_insert_statement (1..3 rows of 1..3 cells)")
     run.ob("C10.R4", "row-data:table", not bad,
            "prepare_insert_statement interpreted on %d (backend, row shape) statements: after VALUES every row is written in order as its cells in order, "
            "each through one renderer call on that very cell%s" % (rows_n, "" if not bad else " - NOT: " + "; ".join(bad[:3])), sp=fn["sp"], cfg=cfg)
@@ -508,6 +511,8 @@ def table_values(run, f, cfg):
            "ColValNumMismatch{col_len, val_len} and nothing is touched; a row of the right length is appended, in cell order%s" % (
                cells, "" if not bad else " - EXCEPT " + "; ".join(bad[:6])), sp=f.fns[VALUES]["sp"], cfg=cfg, detail=bad[:20] or None)
     run.floor("C10.R1", "values-cells", cells, 48, cfg)
+    from .. import scope
+    scope.check_bound(run, "C10.R1", "values:scope", f, [VALUES], 3, cfg, "values() (0..3 columns and cells)")
     return True
 
 
@@ -548,6 +553,8 @@ def table_select_from(run, f, cfg):
            "is touched; otherwise it becomes the source%s" % (cells, "" if not bad else " - EXCEPT " + "; ".join(bad[:6])),
            sp=f.fns[SELECT_FROM]["sp"], cfg=cfg, detail=bad[:20] or None)
     run.floor("C10.R1", "select_from-cells", cells, 48, cfg)
+    from .. import scope
+    scope.check_bound(run, "C10.R1", "select_from:scope", f, [SELECT_FROM], 3, cfg, "select_from() (0..3 columns and expressions)")
     return True
 
 
